@@ -138,6 +138,23 @@ func (g *c04gen) lexCase(hs HSpec, dt, lex string, want any, tags ...string) {
 		in["canon"] = canonTable(lex)
 	}
 	g.out.Emit(Case{Op: "xsd.hash", In: in, Impl: impl, Prop: judge(impl, want), Tags: append(tags, "dt:"+dt, "h:"+hs.Name), NT: true})
+	// the same literal as it reaches the tree: one quad, EntriesFromRDFWithHasher, the entry's value encoding - same meaning, same element
+	if want != nil {
+		ds := ld.NewRDFDataset()
+		ds.Graphs["@default"] = []*ld.Quad{{Subject: ld.NewIRI("urn:a"), Predicate: ld.NewIRI("urn:p"), Object: ld.NewLiteral(lex, full, "")}}
+		var impl2 J
+		ents, err := guard(5*time.Second, func() ([]merklize.RDFEntry, error) { return merklize.EntriesFromRDFWithHasher(ds, hs.H) })
+		if err != nil {
+			impl2 = errJ(err)
+		} else if len(ents) != 1 {
+			impl2 = J{"err": "err"}
+		} else if v, err := ents[0].ValueMtEntry(); err != nil {
+			impl2 = errJ(err)
+		} else {
+			impl2 = okJ(v.String())
+		}
+		g.out.Emit(Case{Op: "none", In: J{"dt": full, "lex": lex, "via": "dataset"}, Impl: impl2, Prop: judge(impl2, want), Tags: append(append([]string{}, tags...), "dt:"+dt, "h:"+hs.Name, "via-dataset"), NT: true})
+	}
 }
 
 // want: nil = no expectation; "err" = must be an error; *big.Int = must equal
@@ -696,6 +713,15 @@ func (g *c04gen) doublesAndStrings(tier string, n int) {
 			}
 			impl := implHash0(hs.H, xsdNS+"integer", tc.v)
 			g.out.Emit(Case{Op: "none", In: J{"dt": "integer", "val": fmt.Sprintf("%T %v", tc.v, tc.v)}, Impl: impl, Prop: judge(impl, tc.want), Tags: []string{"dt:integer", "h:" + hs.Name, "go:other-types"}, NT: true})
+		}
+		// doubles spelled in the *shape* of the canonical form without being it (too many digits, a mantissa no float64 has, a
+		// mantissa below one, exponents beyond the range): the value decides, or it is an error
+		for _, lexd := range []string{"1.2345678901234567E0", "9.007199254740993E15", "0.5E1", "10.0E0", "1.0E999", "1.0E-999", "1.50E0", "1.5E00", "1.5E+0", "-0.0E0", "1.0E0"} {
+			var wantd any = "err"
+			if f, err := strconv.ParseFloat(lexd, 64); err == nil {
+				wantd, _ = hs.H.HashBytes([]byte(ld.GetCanonicalDouble(f)))
+			}
+			g.lexCase(hs, "double", lexd, wantd, "canonical-shape")
 		}
 		// other datatypes: hash of the string
 		for _, dt := range []string{"string", "anyURI", "date", "unknownType", "float", "decimal", "int", "long"} {
